@@ -2,6 +2,7 @@
 against the outcome predicted by the Lean decision-logic model (`Conc.PS`, driver family `ps`)."""
 import os, sys, json, itertools, random
 import leanrun, dsched
+import charts
 from charts import mhsm, Event, signals, return_status
 import miros.activeobject as mao
 
@@ -128,7 +129,7 @@ def _run_position(cfg, max_steps, errors, log):
 
             def do_sub(chart):
                 for kd in kinds:
-                    chart.subscribe(Event(signal="PING"), queue_type=kd)
+                    chart.subscribe(Event(signal="PING"), queue_type=charts.string_as(kd, cfg.get("kind_form", "literal")))
             actions = {"DO_SUB": do_sub}
             chart = make_chart(log, "A", cfg["sub_spied"], actions)
             res = {}
@@ -183,8 +184,14 @@ def explore_position(run, focus="C09"):
     for kind in ("fifo", "lifo"):
         for cap, pending in ((4, 0), (4, 2), (4, 3), (4, 5), (3, 2), (2, 1)):
             cfgs.append({"position": True, "sub_spied": 1, "sub_when": "after_outside", "kind": kind, "cap": cap, "pending": pending})
+    # the subscription kind given as an equal string that is not the literal (configuration file, JSON message, str subclass ...)
+    for k, form in enumerate(charts.STRING_FORMS[1:]):
+        for kind in ("fifo", "lifo", "both"):
+            cfgs.append({"position": True, "sub_spied": k % 2, "sub_when": WHEN[(k + len(kind)) % len(WHEN)], "kind": kind, "kind_form": form})
     for cfg in cfgs:
         spied, when, kind = cfg["sub_spied"], cfg["sub_when"], cfg["kind"]
+        if cfg.get("kind_form"):
+            run.count("position: queue_type given as a string " + cfg["kind_form"])
         r = run_position(cfg)
         run.traces_validated += 1
         run.count("position: subscribe %s%s" % (when, ", capacity %d with %d pending" % (cfg["cap"], cfg["pending"]) if cfg.get("cap") else ""))
